@@ -364,3 +364,122 @@ def returns_at_once(case: dict, horizon: int = 5 * S) -> bool:
     if case["params"].get("by") is not None and case["params"]["by"] < horizon:
         return True
     return False
+
+
+# ---------------- chains: one message followed over its retries / recurrences ----------------
+async def run_chain(case: dict, loop, intern) -> dict:
+    """case: N (retries), pattern (list of "ok" | "raise" | "timeout" per attempt), pol, by (period or None),
+    result (bool), durations (list, us, per attempt), latencies (list, us: how long after the due time the worker
+    looks), mode "jump" (one Worker.run per attempt, clock jumped to the due time) or "continuous" (one Worker.run
+    polling through the back-offs in virtual time), until (relative, optional)."""
+    from repid import Job
+
+    from .world import jump_to
+
+    w = World(results=True)
+    await w.declare("q")
+    start = CLOCK.now_us()
+    pattern = case["pattern"]
+    state = {"k": 0}
+    log = w.log
+    mid, rid = "c1", "rc1"
+
+    async def act(x: int = 0):
+        k = state["k"]
+        state["k"] += 1
+        log.add("actor_start", mid=mid, k=k)
+        d = case.get("durations", [0] * len(pattern))[k] if k < len(pattern) else 0
+        kind = pattern[k] if k < len(pattern) else "ok"
+        if kind == "timeout":
+            await asyncio.sleep(3600)
+        if d:
+            await asyncio.sleep(d / 1_000_000)
+        log.add("actor_end", mid=mid, k=k)
+        if kind == "raise":
+            raise make_exc(100 + k)
+        return 200 + k
+
+    router = Router()
+    router.actor(act, name="chainact", queue="q", retry_policy=make_policy(case["pol"]))
+    timeout = case.get("timeout", 2 * S)
+    job = Job("chainact", queue=w.queue("q"), id_=mid, retries=case["N"], timeout=timedelta(microseconds=timeout),
+              deferred_by=None if case.get("by") is None else timedelta(microseconds=case["by"]),
+              deferred_until=None if case.get("until") is None else ct.dt_of_us(start + case["until"]),
+              ttl=None if case.get("ttl") is None else timedelta(microseconds=case["ttl"]),
+              result_id=rid, result_ttl=timedelta(seconds=77), store_result=bool(case.get("result", True)),
+              args={"x": 1}, use_args_bucketer=False, _connection=w.conn)
+    _, _, p0 = await job.enqueue()
+    loop.max_iterations = loop.iteration + 3_000_000
+    run_errors = []
+    dues: list = []
+    copies: list = []
+    if case.get("mode") == "continuous":
+        worker = w.worker([router], messages_limit=len(pattern), tasks_limit=1, graceful_shutdown_time=60.0)
+        try:
+            await worker.run()
+        except Exception as e:  # noqa: BLE001
+            run_errors.append(f"{type(e).__name__}: {e}")
+    else:
+        lat = case.get("latencies", [1] * len(pattern))
+        for k in range(len(pattern)):
+            snap = w.snapshot("q")
+            copies.append(len(w.place_of("q", mid)))
+            if snap["delayed"]:
+                due = ct.us_of_dt(snap["delayed"][0][0])
+                dues.append(due)
+                jump_to(loop, due + max(1, lat[k] if k < len(lat) else 1))
+            elif not snap["simple"]:
+                break
+            else:
+                dues.append(None)
+            worker = w.worker([router], messages_limit=1, tasks_limit=1, graceful_shutdown_time=60.0)
+            try:
+                await worker.run()
+            except Exception as e:  # noqa: BLE001
+                run_errors.append(f"{type(e).__name__}: {e}")
+    ev = log.events
+    consumes = [e for e in ev if e["kind"] == "consume" and e["id"] == mid]
+    terms = [e for e in ev if e["kind"] == "broker" and e["op"] in ("ack", "nack", "reject", "requeue") and e["id"] == mid]
+    stores = [e for e in ev if e["kind"] == "store" and e["role"] == "results" and e["id"] == rid]
+    starts = [e for e in ev if e["kind"] == "actor_start"]
+    attempts = []
+    for k, c in enumerate(consumes):
+        t = terms[k] if k < len(terms) else None
+        attempts.append({"k": k, "delivered_at": c["t"], "params_at_delivery": c["params"],
+                         "started_at": starts[k]["t"] if k < len(starts) else None,
+                         "op": None if t is None else t["op"], "op_at": None if t is None else t["t"],
+                         "params_out": None if t is None else t["params"],
+                         "success": (pattern[k] == "ok") if k < len(pattern) else None})
+    return {"world": w, "p0": p0, "attempts": attempts, "stores": stores, "places": w.place_of("q", mid),
+            "run_errors": run_errors, "start": start, "dues": dues, "copies": copies + [len(w.place_of("q", mid))], "bucket": await w.rb.get_bucket(rid), "job": job,
+            "job_result": await job.result, "n_terms": len(terms), "n_consumes": len(consumes)}
+
+
+def chain_terms(case: dict, r: dict, intern) -> list[tuple[str, list[int]]]:
+    """Correspondence items for a chain: one `chain_obs` per scheduling (maximal run of attempts ending in a
+    non-retry decision)."""
+    items = []
+    cur_p, outs, obs = None, [], []
+    for a in r["attempts"]:
+        if a["op"] is None:
+            break
+        if cur_p is None:
+            cur_p = a["params_at_delivery"]
+        outs.append(f"({ct.B(a['success'])}, {ct.Z(a['op_at'])})")
+        p_in, q = a["params_at_delivery"], a["params_out"]
+        if a["op"] == "requeue" and q.retries.already_tried == p_in.retries.already_tried + 1:
+            obs += [1] + enc_params(q, intern)
+            continue
+        if a["op"] == "requeue":
+            obs += [2] + enc_params(q, intern)
+        elif a["op"] == "ack":
+            obs += [3]
+        elif a["op"] == "nack":
+            obs += [4]
+        else:
+            obs += [99]
+        items.append((f"({pol_term(case['pol'])}, {params_term(cur_p, intern)}, {ct.lst(outs)})", obs))
+        cur_p, outs, obs = None, [], []
+    if cur_p is not None:
+        items.append((f"({pol_term(case['pol'])}, {params_term(cur_p, intern)}, {ct.lst(outs)})", obs))
+    return items
